@@ -1089,12 +1089,12 @@ fn parse_ccfg(line: &str) -> Option<CCfg> {
 }
 
 /// every tampering of the scripted server (`none` and `mech-multi` are honest servers)
-pub const TAMPERS: [&str; 43] = [
+pub const TAMPERS: [&str; 45] = [
     "none", "mech-multi", "hdr-amqp", "mech-missing", "outcome-first", "early-outcome", "nonce-replace", "nonce-trunc", "nonce-empty",
     "nonce-flip", "no-salt", "salt-badb64", "no-iter", "mext", "chal-nonutf8", "chal-empty", "wrong-salt", "wrong-pw", "sig-other-nonce",
     "sig-flip", "sig-trunc", "sig-empty", "sig-nonb64", "no-v", "e-attr", "no-data", "data-empty", "code1", "code2", "code3", "code4",
     "code1n", "code2n", "code3n", "code4n", "code5", "code255", "extra-chal", "amqp-hdr-before-outcome", "eof-before-outcome",
-    "eof-before-challenge", "chal-after-outcome-fail", "garbage-outcome",
+    "eof-before-challenge", "chal-after-outcome-fail", "garbage-outcome", "nonce-prepend", "nonce-shift",
 ];
 
 fn honest(t: &str) -> bool {
@@ -1247,6 +1247,9 @@ fn client_case(cfg: CCfg) -> String {
                 "nonce-replace" => snonce.to_string(),
                 "nonce-trunc" => format!("{}{}", &cn[..cn.len().saturating_sub(1)], snonce),
                 "nonce-empty" => String::new(),
+                // the client's nonce is in there, but not at the start
+                "nonce-prepend" => format!("{}{}", snonce, cn),
+                "nonce-shift" => format!("x{}{}", cn, snonce),
                 "nonce-flip" => {
                     let mut c: Vec<u8> = cn.clone().into_bytes();
                     if let Some(f) = c.first_mut() {
